@@ -28,7 +28,7 @@ func devLimit(cases [][]byte) [][]byte {
 }
 
 func Run(c *fw.Ctx) {
-	c.Rule = "L1: PRNG store configurations (header v0/v1, embedded values on either side, truncated primary, external commit allowance, synced replica, skipIntegrityCheck, window) × PRNG delivery schedules of the primary's honest exports (concurrent batches in/out of order, gaps, duplicates, beyond-window, replica restarts quiescent/mid-flight, precommit discarding, a fork's diverging precommits) × structure-aware alterations of the wire bytes; an evaluation is one ReplicateTx outcome judged against the replica's frontier, one frontier/restart/discard check or one tx/key/proof compared at quiescence. L2: pkg/database primary with syncAcks=k and m replicas, harness-as-network; an evaluation is one acknowledged primary commit checked against the replicas' durable precommitted states, one replica-not-ahead check or one final comparison. distinct = level × delivery pattern × alteration class × outcome observed"
+	c.Rule = "L1: PRNG store configurations (header v0/v1, embedded values on either side, truncated primary, external commit allowance, synced replica, skipIntegrityCheck, window) × PRNG delivery schedules of the primary's honest exports (concurrent batches in/out of order, gaps, duplicates, beyond-window, replica restarts quiescent/mid-flight, precommit discarding, a fork's diverging precommits) × structure-aware alterations of the wire bytes; an evaluation is one ReplicateTx outcome judged against the replica's frontier, one frontier/restart/discard check or one tx/key/proof compared at quiescence. L2: pkg/database primary with syncAcks=k and m replicas, harness-as-network; an evaluation is one acknowledged primary commit checked against the replicas' durable precommitted states, one replica-not-ahead check or one final comparison. L3: real immudb servers over loopback TCP, the real TxReplicator / StreamExportTx / pkg/database paths, client workload (Set, SetAll, ExecAll, references, deletes, metadata, SQL) with several committers, async and sync replication (SyncAcks 1..n), PRNG disturbances (replica restart, database unload/load, primary restart, late replica, primary put back to an older copy); an evaluation is one acknowledged commit checked against the sync replicas' reported precommitted states, one replica-not-ahead sample, one tx / query answer / cross-server VerifiedGet compared at quiescence, one divergence outcome. distinct = level × delivery pattern × alteration class × outcome observed (L3: mode × acks × disturbance × outcome)"
 	c.Assume("SHA-256 collision resistance; the primary's own headers and accumulated hashes are the reference")
 	c.Assume("values of txs exported after value-log truncation travel as digests: only digests are compared for them (ReadValue documents that a replicated truncated value is indistinguishable from an empty one)")
 	only := os.Getenv("VERIF_C07_ONLY")
